@@ -70,7 +70,14 @@ func TestC19(t *testing.T) {
 		"(asked once more alone before it counts) and the process must live. Lane remote-rules: children with an http_endpoint provider polling the scripted server every 40 ms: documents that are no rule set, truncations with " +
 		"FIN / RST / matching Content-Length, HTTP level faults, responses that are never finished while the connection stays open; afterwards a fresh valid rule set must be loaded. Each file " +
 		"step is one system call = one file event = one exact content, journaled before it is applied. A case is non-trivial if heimdall demonstrably consumed the input (logged reload " +
-		"attempt, processed rule event proven by a later sentinel rule file, remote endpoint asked, request answered).")
+		"attempt, processed rule event proven by a later sentinel rule file, remote endpoint asked, request answered). " +
+		"Lane redis-creds: children whose cache is `type: redis` with `credentials: {path: ...}` against a miniredis instance in the child that demands a user and a password, reached through a TCP relay of the harness. " +
+		"The credentials file is brought - in single system calls - to null documents in every spelling, empty / blank / comment-only files, garbage, every truncation of a valid file (with and without a `---` comment header), " +
+		"bit flips, wrong types for the document and its members, unknown / duplicate members, tags, anchors / aliases / merge keys, several documents, depth- and size-extreme documents, valid files with wrong credentials " +
+		"and the credentials in use in other notations. After every step heimdall's statement about the reload is awaited, the relay cuts every connection to redis (the client has to authenticate anew with what it holds now) and two " +
+		"requests with a new path are sent through a rule whose generic contextualizer caches its response (key holds the path): the second one is served from the cache if and only if the client could authenticate. " +
+		"Then the server is told to demand fresh credentials and a valid file holding them is written. Judged: the process lives, every request is answered (a request goroutine that stays inside the cache call after the " +
+		"client went away is reported with its stack: request-blocked), after a rejected reload the cache still works with the credentials in use before, the valid file is picked up.")
 	r.Assume("the trust store is only read when a mechanism is created (this tree has no trust store hot reload): it is enumerated through authenticators.CreatePrototype",
 		"reload attempts are recognised by heimdall's own log statements ('... key store reloaded' / '... reload failed' / 'Failed to apply rule set changes')",
 		"file removal is outside the statement's input domain (contents): a lost inotify watch after remove+recreate is recorded as an observation only",
@@ -119,6 +126,7 @@ func TestC19(t *testing.T) {
 	lanes = append(lanes, g.rulesChurnLane(), g.rulesMatcherLane())
 	lanes = append(lanes, g.requestDeepLanes()...)
 	lanes = append(lanes, g.requestBurstLane(), g.remoteRulesLane())
+	lanes = append(lanes, g.redisCredsLane())
 	// the lanes that take longest start first (the generation order above fixes the inputs, not the schedule)
 	sort.SliceStable(lanes, func(i, j int) bool { return laneRank(lanes[i].name) < laneRank(lanes[j].name) })
 	if r.Thorough() {
@@ -224,6 +232,11 @@ func TestC19(t *testing.T) {
 	r.Require("bursts_of_simultaneous_first_requests_for_a_rule", r.Counter("bursts_of_simultaneous_first_requests_for_a_rule"), int64(r.Pick(50, 150)))
 	r.Require("requests_in_bursts_answered", r.Counter("requests_in_bursts_answered"), int64(r.Pick(1000, 4000)))
 	r.Require("sentinels_observed_"+kRemoteRules, r.Counter("sentinels_observed_"+kRemoteRules), 50)
+	r.Require("reload_attempts_"+kRedisCreds, r.Counter("reload_attempts_"+kRedisCreds), 300)
+	r.Require("sentinels_observed_"+kRedisCreds, r.Counter("sentinels_observed_"+kRedisCreds), 100)
+	r.Require("previous_state_confirmed_"+kRedisCreds, r.Counter("previous_state_confirmed_"+kRedisCreds), 50)
+	r.Require("redis_reconnects_forced", r.Counter("redis_reconnects_forced"), 300)
+	r.Require("requests_answered_through_the_rule_using_the_redis_cache", r.Counter("requests_answered_through_the_rule_using_the_redis_cache"), 600)
 	r.Require("children_spawned", int64(mon.spawned), int64(len(lanes)))
 	r.End()
 }
@@ -316,7 +329,7 @@ func (m *monitor) runLane(l lane) {
 		}
 		aborted := false
 		for sig, n := range laneViol {
-			if n >= m.breakerLimit && strings.HasPrefix(sig, "watcher-stopped") {
+			if n >= m.breakerLimit && (strings.HasPrefix(sig, "watcher-stopped") || strings.HasPrefix(sig, "request-blocked")) {
 				m.mu.Lock()
 				m.skippedBy["lane "+l.name+fmt.Sprintf(" (from input %d of %d)", idx, len(l.inputs))] = sig
 				m.mu.Unlock()
@@ -324,7 +337,7 @@ func (m *monitor) runLane(l lane) {
 			}
 		}
 		if aborted {
-			return // a stopped watcher costs four watchdog periods per input: the rest of the lane would only repeat it
+			return // a stopped watcher costs four watchdog periods per input, a blocked request the client's patience: the rest of the lane would only repeat it
 		}
 		tag := fmt.Sprintf("lane %s from input %d", l.name, idx)
 		if cr.TimedOut {
@@ -432,6 +445,9 @@ func (m *monitor) account(res *inResult, inputs []inputSpec) (violated []string)
 	r.Count("bursts_of_simultaneous_first_requests_for_a_rule", res.BurstsCold)
 	r.Count("requests_in_bursts_answered", res.BurstAnswered)
 	r.Count("rule_set_polls_answered_with_a_scripted_response", res.Polls)
+	r.Count("redis_credentials_file_contents_written", res.CredFiles)
+	r.Count("redis_reconnects_forced", res.Reconnects)
+	r.Count("requests_answered_through_the_rule_using_the_redis_cache", res.CacheRequests)
 	if res.Deep > 0 {
 		r.Count("deep_documents_handed_over_"+res.Kind, res.Deep)
 	}
